@@ -23,13 +23,16 @@ type C14Item struct {
 }
 
 type C14Case struct {
-	Rows    []any     `json:"rows"`
-	Where   *sq.E     `json:"where,omitempty"`
-	Items   []C14Item `json:"items"`
-	Order   []int     `json:"order"`          // release permutation over the gated calls (arrival index -> completion rank)
-	Tail    string    `json:"tail,omitempty"` // "" | distinct | orderby (ASYNC column under DISTINCT / as ORDER BY key)
-	Imm     string    `json:"imm,omitempty"`  // immediate-function rejection case: the qualified call text
-	Wrapped bool      `json:"wrapped,omitempty"`
+	Rows  []any     `json:"rows"`
+	Where *sq.E     `json:"where,omitempty"`
+	Items []C14Item `json:"items"`
+	Order []int     `json:"order"`          // release permutation over the gated calls (arrival index -> completion rank)
+	Tail  string    `json:"tail,omitempty"` // "" | distinct | orderby (ASYNC column under DISTINCT / as ORDER BY key)
+	Imm   string    `json:"imm,omitempty"`  // immediate-function rejection case: the qualified call text
+	// Grouped: SELECT s AS rs, ONCE.<fn>('tag', <const>) AS o0, COUNT(a) AS n FROM t [WHERE] GROUP BY s [HAVING ONCE...]:
+	// one invocation for the whole query, the same value in every group
+	Grouped string `json:"grouped,omitempty"` // "" | select | having
+	Wrapped bool   `json:"wrapped,omitempty"`
 }
 
 func genC14(t *rapid.T) any {
@@ -42,6 +45,18 @@ func genC14(t *rapid.T) any {
 		if rapid.Bool().Draw(t, "norows") {
 			c.Rows = []any{}
 		}
+		return c
+	}
+	if rapid.IntRange(0, 9).Draw(t, "groupedcase") == 0 {
+		c.Grouped = rapid.SampledFrom([]string{"select", "select", "having"}).Draw(t, "groupedkind")
+		nr := rapid.IntRange(1, 7).Draw(t, "g.nrows")
+		for r := 0; r < nr; r++ {
+			c.Rows = append(c.Rows, map[string]any{"a": rapid.SampledFrom([]float64{1, 2, 3, 4}).Draw(t, fmt.Sprintf("g.r%d.a", r)), "s": rapid.SampledFrom([]any{"x", "y", "zz"}).Draw(t, fmt.Sprintf("g.r%d.s", r))})
+		}
+		if rapid.Bool().Draw(t, "g.where") {
+			c.Where = sq.Cmp(">", sq.Col("a"), sq.Num(rapid.SampledFrom([]float64{0, 1, 2}).Draw(t, "g.wc")))
+		}
+		c.Items = []C14Item{{Q: "once", Fn: rapid.SampledFrom([]string{"vf_tag", "vf_tag2"}).Draw(t, "g.fn"), Tag: "n0", Arg: rapid.SampledFrom([]string{"5", "'k'", "2.5"}).Draw(t, "g.const"), Alias: "o0"}}
 		return c
 	}
 	n := rapid.IntRange(1, 6).Draw(t, "nrows")
@@ -171,6 +186,9 @@ func checkC14(c *C14Case) Result {
 	res := Result{}
 	if c.Imm != "" {
 		return checkC14Imm(c)
+	}
+	if c.Grouped != "" {
+		return checkC14Grouped(c)
 	}
 	// rows passing WHERE (reference)
 	var selected []map[string]any
@@ -500,4 +518,77 @@ func init() {
 		RaceQuick:    150,
 		RaceThorough: 6000,
 	})
+}
+
+// checkC14Grouped: a ONCE call in a grouped query is still invoked a single time per query, and every group
+// shows that one value.
+func checkC14Grouped(c *C14Case) Result {
+	res := Result{Labels: []string{"once-in-a-grouped-query:" + c.Grouped}}
+	it := c.Items[0]
+	groups := map[string]float64{}
+	var order []string
+	for _, r := range c.Rows {
+		row := r.(map[string]any)
+		if c.Where != nil {
+			if keep, err := sq.EvalBool(c.Where, row, nil); err != nil || !keep {
+				continue
+			}
+		}
+		k, _ := row["s"].(string)
+		if _, ok := groups[k]; !ok {
+			order = append(order, k)
+		}
+		groups[k]++
+	}
+	injNewRun(nil)
+	epoch := injEpoch.Load()
+	call := fmt.Sprintf("ONCE.%s(%s, %s)", it.Fn, sq.StrLit(fmt.Sprintf("%s#%d", it.Tag, epoch)), it.Arg)
+	where := ""
+	if c.Where != nil {
+		where = " WHERE " + sq.Render(c.Where, nil)
+	}
+	var arg any = 5.0
+	switch it.Arg {
+	case "'k'":
+		arg = "k"
+	case "2.5":
+		arg = 2.5
+	}
+	want := []any{}
+	sql := ""
+	if c.Grouped == "select" {
+		sql = "SELECT s AS rs, " + call + " AS o0, COUNT(a) AS n FROM t" + where + " GROUP BY s"
+		for _, k := range order {
+			want = append(want, map[string]any{"rs": k, "o0": vfValue(it.Tag, arg), "n": groups[k]})
+		}
+	} else {
+		// the call sits in HAVING: every group is judged with the one value
+		sql = "SELECT s AS rs, COUNT(a) AS n FROM t" + where + " GROUP BY s HAVING " + call + " IS NOT NULL"
+		for _, k := range order {
+			want = append(want, map[string]any{"rs": k, "n": groups[k]})
+		}
+	}
+	out := Run(c.doc(), sql, Opts{})
+	res.Execs++
+	inj.mu.Lock()
+	calls := inj.tagCalls[it.Tag]
+	inj.mu.Unlock()
+	res.NonTrivial = len(order) >= 2
+	ctx := fmt.Sprintf("%s over %s", sql, val.JSON(c.Rows))
+	if !out.OK() {
+		res.Violation = ctx + "\n  " + out.Describe()
+		return res
+	}
+	exp := 1
+	if len(order) == 0 {
+		exp = 0
+	}
+	if calls != exp {
+		res.Violation = fmt.Sprintf("%s\n  the ONCE call was invoked %d times over %d groups; expected %d", ctx, calls, len(order), exp)
+		return res
+	}
+	if !val.MultisetEqual(out.Rows, normList(want)) {
+		res.Violation = fmt.Sprintf("%s\n  expected %s\n  got      %s", ctx, val.JSON(normList(want)), val.JSON(out.Rows))
+	}
+	return res
 }
